@@ -18,12 +18,13 @@ func main() {
 	seed := flag.Uint64("seed", 1, "batch seed")
 	n := flag.Int("n", 16, "number of designs")
 	out := flag.String("out", ".", "output directory")
+	focus := flag.String("focus", "", "bias towards a topic: views | security")
 	flag.Parse()
 	os.MkdirAll(*out, 0755)
 	for i := 0; i < *n; i++ {
 		name := fmt.Sprintf("d%d", i)
 		t := verifsim.NewTape(*seed*1000 + uint64(i))
-		d := gen.GenDesign(t, name)
+		d := gen.GenDesign(t, name, *focus)
 		b, _ := json.MarshalIndent(d, "", " ")
 		if err := os.WriteFile(filepath.Join(*out, name+".json"), b, 0644); err != nil {
 			fmt.Fprintln(os.Stderr, err)
